@@ -106,7 +106,7 @@ def v1_config(sc, d: Path, cfg2: dict) -> dict:
     return c
 
 
-def run_variant(res: Result, sc, label: str, edit=None, spelling="yaml2", v1=False):
+def run_variant(res: Result, sc, label: str, edit=None, spelling="yaml2", v1=False, v1_edit=None):
     import yaml
 
     d = world.new_dir()
@@ -117,6 +117,8 @@ def run_variant(res: Result, sc, label: str, edit=None, spelling="yaml2", v1=Fal
             cfg = edit(cfg, d) or cfg
         if v1:
             cfg = v1_config(sc, d, cfg)
+            if v1_edit is not None:
+                cfg = v1_edit(cfg, d) or cfg
             path = d / "ladim_v1.yaml"
             path.write_text(yaml.safe_dump(cfg, sort_keys=False))
         else:
@@ -201,6 +203,26 @@ def execute(sc) -> Result:
     run, got = run_variant(res, sc, "v1", v1=True)
     judge("C18.v2_vs_v1", "legacy version-1 YAML", run, got)
     res.probes["v1"] += 1
+
+    # ---- version 1 without a grid file: the (first) forcing file is the grid file, also for a wildcard
+    def v1_no_gridfile(cfg, d):
+        cfg["gridforce"].pop("gridfile", None)
+        if nfiles == 1:
+            cfg["gridforce"]["input_file"] = str(d / "forcing_*.nc") if sc["time"]["nsteps"] % 2 else cfg["gridforce"]["input_file"]
+        return cfg
+
+    run, got = run_variant(res, sc, "v1_no_gridfile", v1=True, v1_edit=v1_no_gridfile)
+    judge("C18.v2_vs_v1", "legacy version-1 YAML without gridfile", run, got)
+
+    def v1_files_section(cfg, d):
+        # the legacy format also accepts the file names in the files section
+        cfg["files"]["input_file"] = cfg["gridforce"].pop("input_file")
+        if "gridfile" in cfg["gridforce"]:
+            cfg["files"]["gridfile"] = cfg["gridforce"].pop("gridfile")
+        return cfg
+
+    run, got = run_variant(res, sc, "v1_files_section", v1=True, v1_edit=v1_files_section)
+    judge("C18.v2_vs_v1", "legacy version-1 YAML, file names in the files section", run, got)
 
     # ---- grid file / module omitted: forcing module and first forcing file are used
     def omit_grid(cfg, d):
